@@ -59,6 +59,8 @@ def gen_bag(r):
     nconn = r.randint(1, 5)
     types = [(b"std_msgs/String", b"992ce8a1687cec8c8bd883ec73ca41d1", b"string data\n"),
              (b"geometry_msgs/Point", b"4a842b65f413084dc2b10fb484ea7f17", b"float64 x\nfloat64 y\nfloat64 z\n"),
+             # a different type with the same md5sum (as in the real message set): one schema per type/md5 pair, not per md5
+             (b"geometry_msgs/Vector3", b"4a842b65f413084dc2b10fb484ea7f17", b"float64 x\nfloat64 y\nfloat64 z\n"),
              (b"pkg/Custom", b"0123", b"int32 a\nHeader h\n" + b"=" * 80 + b"\nMSG: std_msgs/Header\nuint32 seq\n")]
     conns = []
     ids = r.sample([0, 1, 2, 3, 7, 65535, 100, 4], nconn)
